@@ -92,19 +92,30 @@ theorem reads_never_create (σ : Nat → Nat) (w : World) (ops : List Op) (hw : 
 
 /-! ### create_collection -/
 
+theorem contains_created_of_created {sv : Server} {d n : String}
+    (h : (sv.coll d n).isCreated = true) : (createdColls (sv.db d)).contains n = true := by
+  simp only [List.contains_eq_mem, decide_eq_true_eq]
+  unfold Server.coll at h
+  cases hg : alGet? n (sv.db d) with
+  | none => rw [hg] at h; simp [Coll.empty, Coll.isCreated] at h
+  | some c =>
+    rw [hg] at h
+    exact List.mem_map.mpr ⟨(n, c), List.mem_filter.mpr ⟨alGet?_mem hg, by simpa using h⟩, rfl⟩
+
 theorem create_existing_fails (σ : Nat → Nat) (w : World) (h : DbH) (n : String)
     (hob : obtainedDb w h = true) (hv : validName n = true)
-    (hex : n ∈ (w.store (σ h.client)).listColls h.db) :
+    (hex : created w (σ h.client) h.db n = true) :
     Catalog.step σ w (.createCollection h n) = (w, .err .collInvalid) := by
-  have : ((w.store (σ h.client)).listColls h.db).contains n = true := by simpa using hex
-  simp [Catalog.step, hob, hv, hex]
+  have := contains_created_of_created hex
+  simp only [Catalog.step, hob, hv, this, Bool.not_true, Bool.false_eq_true, if_false, if_true]
 
-theorem create_new_succeeds (σ : Nat → Nat) (w : World) (h : DbH) (n : String)
+theorem create_new_succeeds (σ : Nat → Nat) (w : World) (h : DbH) (n : String) (hw : WF w)
     (hob : obtainedDb w h = true) (hv : validName n = true)
-    (hex : n ∉ (w.store (σ h.client)).listColls h.db) :
+    (hex : created w (σ h.client) h.db n = false) :
     (Catalog.step σ w (.createCollection h n)).2 = .ok ∧
     created (Catalog.step σ w (.createCollection h n)).1 (σ h.client) h.db n = true := by
-  have : ((w.store (σ h.client)).listColls h.db).contains n = false := by simpa using hex
+  have : (createdColls ((w.store (σ h.client)).db h.db)).contains n = false := by
+    rw [contains_createdColls (hw.1 _)]; exact hex
   simp only [Catalog.step, hob, hv, this, Bool.not_true, Bool.false_eq_true, if_false, created]
   refine ⟨trivial, ?_⟩
   rw [store_addCollCache, store_setStore]
